@@ -323,6 +323,18 @@ func c17HistoryCase(i int, raw []byte) Result {
 	if err := json.Unmarshal(raw, &c); err != nil {
 		return fail("decode", "decode", err.Error(), nil)
 	}
+	c.Book.applyAlphabet()
+	if suf := c17Specials[c.Book.ValSp]; suf != "" {
+		for k := range c.Calls {
+			for a := range c.Calls[k].View {
+				for b := range c.Calls[k].View[a] {
+					if c.Calls[k].View[a][b].D.K == "t" {
+						c.Calls[k].View[a][b].D.K = "t:" + suf
+					}
+				}
+			}
+		}
+	}
 	path, err := c17WriteFile(c17Workbook(&c.Book).Members(), ".xlsx")
 	if err != nil {
 		panic(err)
@@ -403,6 +415,9 @@ func c17HistoryCase(i int, raw []byte) Result {
 			}
 			continue
 		}
+		if (call.Op == "text" || call.Op == "textopt") && c17HasNL(exps) {
+			continue // only purity is asserted for the text of a workbook with line breaks inside values
+		}
 		for kk, s := range call.Sheets {
 			var obs []c17Obs
 			if kk < len(got.Obs) {
@@ -412,7 +427,7 @@ func c17HistoryCase(i int, raw []byte) Result {
 				return bad(k, "C17:"+m.View+":"+m.Symptom, fmt.Sprintf("%s, sheet %d: %s", names[k], s, m.What), got.Raw)
 			}
 		}
-		if len(got.Extra) > 0 {
+		if len(got.Extra) > 0 && !c17HasNL(exps) {
 			return bad(k, "C17:tsv:extra", fmt.Sprintf("%s: %d more non-empty fields after the last selected sheet, e.g. %q", names[k], len(got.Extra), got.Extra[0].Raw), got.Raw)
 		}
 		if got.Flags != nil {
